@@ -55,6 +55,7 @@ func checkC20(c *Ctx) {
 	// bucket pairs are derived from a sorted COPY that stays private while it is read (shared with C03 O5)
 	c.checkSortedCopy("O3 sorted-copy")
 	c.checkBoundTablePrivate("O6 bound-table-private")
+	c.checkOnePairPerBound("O4 one-pair-per-bound")
 }
 
 // checkRecurrence (O5): the bounds follow the documented recurrence. Decided symbolically on SSA, not
@@ -1379,4 +1380,59 @@ func (c *Ctx) returnsFreshSlice(g *ssa.Function, depth int) bool {
 		}
 	}
 	return true
+}
+
+// checkOnePairPerBound: BucketPairs turns n bounds into n+1 pairs - the loop that derives a pair from
+// its predecessor appends to the result in every iteration: the append dominates every
+// latch of the loop, so no bound is skipped ("empty" buckets of repeated bounds included). A histogram
+// whose table lacks a bound of its specification reports other bounds than it was created with, and
+// the tables of two specifications that differ only in a repeated bound coincide.
+func (c *Ctx) checkOnePairPerBound(rule string) {
+	bp := c.fn("", "", "BucketPairs")
+	if bp == nil {
+		c.missing(rule, "tally.BucketPairs")
+		return
+	}
+	key := c.fnKey(bp)
+	c.sawFunc(key)
+	n := 0
+	// the appends that extend the result ([]BucketPair), per loop
+	var resT types.Type
+	if bp.Signature.Results().Len() == 1 {
+		resT = bp.Signature.Results().At(0).Type()
+	}
+	for _, loop := range loopsOf(bp) {
+		var apps []*ssa.Call
+		for _, b := range bp.Blocks {
+			if !loop.Blocks[b] {
+				continue
+			}
+			for _, in := range b.Instrs {
+				ac, isCall := in.(*ssa.Call)
+				if !isCall || !isBuiltin(ac, "append") || resT == nil || !types.Identical(ac.Type(), resT) {
+					continue
+				}
+				apps = append(apps, ac)
+			}
+		}
+		if len(apps) == 0 {
+			continue
+		}
+		n++
+		okAll := false
+		for _, app := range apps {
+			dom := true
+			for _, latch := range loop.Latch {
+				if !(app.Block() == latch || app.Block().Dominates(latch)) {
+					dom = false
+				}
+			}
+			if dom {
+				okAll = true
+			}
+		}
+		c.check(okAll, rule, key, apps[0].Pos(), "every iteration of the pair loop appends the pair of its bound (n bounds give n+1 pairs)",
+			"an iteration of the pair loop can end without appending the pair of its bound: the table has fewer buckets than the specification has bounds, so the histogram does not use exactly the bounds it was created with (and specifications that differ only in a skipped bound get the same table)", c.describe(apps[0]))
+	}
+	c.floor(rule, n, 1)
 }
